@@ -103,7 +103,8 @@ class C12(Prop):
         "codec_unpack_chunk", "codec_pack_in_place", "codec_unpack_in_place", "codec_metadata_round_trip", "th_barrier", "th_counter", "th_no_lost_wakeup_master", "th_progress",
         "loader_nload_largest_prefix", "loader_chunks_partition", "dsq_chunks_are_the_database", "pipe_order", "pipe_eof_after_all", "pipe_lanes", "pipe_no_deadlock", "pipe_no_lost_wakeup", "pipe_eof_delivered", "pipe_buffers",
         "dsq_open_written", "dsq_bytes_round_trip", "dsq_bytes_round_trip_defaults", "dsq_open_corrupt_header", "dsq_stub_tag",
-        "dsq_threaded_read_is_database", "open_rejects", "read_written_database", "chunk_ownership_exclusive", "pipe_lock_discipline")]
+        "dsq_threaded_read_is_database", "open_rejects", "read_written_database", "chunk_ownership_exclusive", "pipe_lock_discipline",
+        "codec_chunk_layout", "codec_unpack_smem", "codec_pack_unpack_smem")]
     claimed = True
     level_text = ("Theorems for every schedule of one reader and any number of workers (one atomic step per mutex-protected region, spurious wake-ups allowed): "
                   "conservation and exclusivity of blocks, FIFO on both queues (history variables), counters in range and pendingWorkers = number of sleepers, "
@@ -245,6 +246,24 @@ class C12(Prop):
                     if last: break
             stats["codec_ops"] += len(ops)
             out.append({"name": "codec%d" % c, "ops": ops})
+        # --- unpacking in place at byte level: dsqdata_chunk_Create's buffer for (maxpacket, maxseq), the packets where the loader puts them,
+        #     dsqdata_unpack_chunk inside that buffer; limits exactly met (every packet full, N = maxseq, pn = maxpacket) and slack ones
+        for c in range(60 if quick else 800):
+            ops = []
+            for _ in range(rng.randrange(2, 7)):
+                amino = rng.random() < 0.45
+                per = 6 if amino else 15
+                tight = rng.random() < 0.5
+                if tight:    # every packet full
+                    ds = [[rng.randrange(20 if amino else 4) for _ in range(per * rng.randrange(1, 5))] for _ in range(rng.randrange(1, 7))]
+                else:
+                    ds = [self.rand_dsq(rng, amino, 70, full=True) for _ in range(rng.randrange(0, 8))]
+                pk = [w for x in ds for w in (pack5(x) if amino else pack2(x))]
+                mp = max(1, len(pk)) + (0 if rng.random() < 0.6 else rng.choice([1, 2, 3, 17]))
+                ms = max(1, len(ds)) + (0 if rng.random() < 0.6 else rng.choice([1, 2, 3, 4096 - len(ds)]))
+                ops.append("unpacksmem mode=%d maxpacket=%d maxseq=%d p=%s" % (5 if amino else 2, mp, ms, ",".join(map(str, pk)) if pk else "-"))
+            stats["unpacksmem_ops"] = stats.get("unpacksmem_ops", 0) + len(ops)
+            out.append({"name": "smem%d" % c, "ops": ops})
         # --- sequential queue histories: the generator simulates the abstract queue (two lists + holdings) so that most ops are
         #     meaningful and deep states are reached (several blocks queued on both sides, ring wrap-around, Reset/Remove with
         #     non-trivial contents); about one op in ten is deliberately invalid (foreign block, would-block, overflow)
@@ -504,6 +523,29 @@ class C12(Prop):
             lim = "maxseq=%d maxpacket=%d unpackers=%d" % (rng.choice([0, 1, 2, 3]), rng.choice([0, 0, 11, 40]), rng.randrange(0, 5))
             out.append({"name": "dsqopen%d" % c, "ops": ["dsqopen %s expect=%s mut=%s %s" % (body, expect, mut, lim)]})
             stats["dsqopen"] = stats.get("dsqopen", 0) + 1
+        # --- systematic sweep, every run: flip EACH byte of EACH header field that esl_dsqdata_Open validates (magic and tag of the three
+        #     data files, the alphabet type), set the type field to every interesting value, with and without a caller alphabet
+        k = 0
+        for f in ("dsqi", "dsqm", "dsqs"):
+            for off in range(8):
+                body, abc, nseq = byte_db(3, 30)
+                out.append({"name": "dsqopen-sweep-%s-%d" % (f, off), "ops": ["dsqopen %s expect=%s mut=%s:%d:%d maxseq=0 maxpacket=0 unpackers=%d" % (
+                    body, rng.choice(["none", abc]), f, off, rng.choice([1, 2, 4, 8, 16, 32, 64, 128, 255]), rng.randrange(0, 3))]})
+                k += 1
+        for v in (0, 1, 2, 3, 4, 5, 7, 8, 255):
+            for expect_own in (False, True):
+                body, abc, nseq = byte_db(3, 30)
+                t = {"amino": 3, "dna": 2, "rna": 1}[abc]
+                if v == t: continue
+                out.append({"name": "dsqopen-type-%d-%d" % (v, expect_own), "ops": ["dsqopen %s expect=%s mut=dsqi:8:%d maxseq=0 maxpacket=0 unpackers=1" % (
+                    body, abc if expect_own else "none", t ^ v)]})
+                k += 1
+        for off in (9, 10, 11):
+            body, abc, nseq = byte_db(3, 30)
+            out.append({"name": "dsqopen-type-hi-%d" % off, "ops": ["dsqopen %s expect=%s mut=dsqi:%d:%d maxseq=0 maxpacket=0 unpackers=1" % (
+                body, rng.choice(["none", abc]), off, rng.choice([1, 128, 255]))]})
+            k += 1
+        stats["dsqopen"] = stats.get("dsqopen", 0) + k
         rng.shuffle(out)
         return out
 
